@@ -328,6 +328,9 @@ func (a chainAdapter) AddItem(b *block.Block) (err error) {
 		}
 	}
 	a.n.cl.rec.addEvent(e)
+	if debugLogs && os.Getenv("C19_DEBUG") == "2" {
+		fmt.Printf("%s LOG node%d ledger=%d ADDBLOCK %d done err=%v\n", time.Now().Format("05.000000"), a.n.idx, a.n.bc.BlockHeight(), b.Index, err)
+	}
 	return err
 }
 func (a chainAdapter) AddItems(...*block.Block) error { panic("not used for blocks") }
@@ -373,7 +376,7 @@ func (c *logCore) Write(e zapcore.Entry, fields []zapcore.Field) error {
 		di, _ := enc.Fields["dbft index"].(uint32)
 		ci, _ := enc.Fields["chain index"].(uint32)
 		if debugLogs && os.Getenv("C19_DEBUG") == "2" {
-			fmt.Printf("%s LOG node%d ledger=%d phase=%d chain event: dbft index %d chain index %d\n", time.Now().Format("05.000"), c.n.idx, c.n.bc.BlockHeight(), c.rec.phase.Load(), di, ci)
+			fmt.Printf("%s LOG node%d ledger=%d phase=%d chain event: dbft index %d chain index %d\n", time.Now().Format("05.000000"), c.n.idx, c.n.bc.BlockHeight(), c.rec.phase.Load(), di, ci)
 		}
 		c.rec.mu.Lock()
 		c.rec.logs["debug:"+e.Message]++
@@ -389,7 +392,7 @@ func (c *logCore) Write(e zapcore.Entry, fields []zapcore.Field) error {
 		for _, f := range fields {
 			f.AddTo(enc)
 		}
-		fmt.Printf("%s LOG node%d ledger=%d phase=%d %s %s %v\n", time.Now().Format("05.000"), c.n.idx, c.n.bc.BlockHeight(), c.rec.phase.Load(), e.Level, e.Message, enc.Fields)
+		fmt.Printf("%s LOG node%d ledger=%d phase=%d %s %s %v\n", time.Now().Format("05.000000"), c.n.idx, c.n.bc.BlockHeight(), c.rec.phase.Load(), e.Level, e.Message, enc.Fields)
 	}
 	c.rec.mu.Lock()
 	defer c.rec.mu.Unlock()
@@ -579,19 +582,19 @@ func (nd *node) broadcast(p *npayload.Extensible) {
 		return
 	}
 	raw := w.Bytes()
-	typ, view := nd.cl.observePayload(nd.idx, raw)
+	typ, view, height := nd.cl.observePayload(nd.idx, raw)
 	for j := range nd.cl.nodes {
 		if j == nd.idx {
 			continue
 		}
 		dst := nd.cl.nodes[j]
-		nd.cl.net.send(nd.idx, j, "payload", typ, view, func() { dst.onExtensibleRaw(raw) })
+		nd.cl.net.sendH(nd.idx, j, "payload", typ, view, height, func() { dst.onExtensibleRaw(raw) })
 	}
 }
 
 // observePayload decodes the payload the way a receiver would, for statistics
 // and for the inclusion oracle (prepare requests).
-func (cl *cluster) observePayload(from int, raw []byte) (string, int) {
+func (cl *cluster) observePayload(from int, raw []byte) (string, int, uint32) {
 	p := consensus.NewPayload(cl.magic, cl.cfg.SRIH)
 	r := io.NewBinReaderFromBuf(raw)
 	p.DecodeBinary(r)
@@ -613,7 +616,7 @@ func (cl *cluster) observePayload(from int, raw []byte) (string, int) {
 			typ = fmt.Sprintf("undecodable:type-0x%02x", q.Data[0])
 		}
 		rec.msgTypes[typ]++
-		return "undecodable", -1
+		return "undecodable", -1, 0
 	}
 	rec.msgTypes[p.Type().String()]++
 	if rec.typeSent[from] == nil {
@@ -657,7 +660,7 @@ func (cl *cluster) observePayload(from int, raw []byte) (string, int) {
 	} else if p.Type().String() == "PrepareRequest" {
 		rec.preps = append(rec.preps, prepRec{Node: from, Validator: int(p.ValidatorIndex()), Height: p.Height(), View: p.ViewNumber(), Txs: slices.Clone(p.GetPrepareRequest().TransactionHashes())})
 	}
-	return p.Type().String(), int(p.ViewNumber())
+	return p.Type().String(), int(p.ViewNumber()), p.Height()
 }
 
 // recoveryShape tells what a recovery message carries about the proposal:
@@ -747,7 +750,7 @@ func (nd *node) relayBlock(b *block.Block) {
 			continue
 		}
 		dst := nd.cl.nodes[j]
-		nd.cl.net.send(nd.idx, j, "block", "", -1, func() { dst.onBlockRaw(raw) })
+		nd.cl.net.sendH(nd.idx, j, "block", "", -1, b.Index, func() { dst.onBlockRaw(raw) })
 	}
 }
 
